@@ -1280,7 +1280,13 @@ Verdict runOnce(const Program & p, const std::string & prop, FaultPlan * plan)
 
 Verdict run(const Program & p, const std::string & prop)
 {
-	if(prop != "C09") return runOnce(p, prop, nullptr);
+#ifdef VF_FAULTS
+	// the fault variant also serves C08: "destroyed exactly once, never leaked ... including exceptions"
+	const bool inject = prop == "C09" || prop == "C08";
+#else
+	const bool inject = prop == "C09";
+#endif
+	if(! inject) return runOnce(p, prop, nullptr);
 	return faultOrchestrate(p, [&](const Program & q2, FaultPlan & plan, Verdict & out) { out = runOnce(q2, prop, &plan); });
 }
 
